@@ -71,6 +71,25 @@ type Stream struct {
 	cutHit       bool
 	serverClosed bool
 	goid         uint64
+	failRun      int // run in which the host's I/O first failed (-1: never)
+	failBytes    int // bytes of that run moved before the failure
+}
+
+// Failure returns the host-side run in which the stream's I/O first failed
+// (because of a cut, or because the renter went away) and how many bytes of
+// that run had moved; run is -1 if no I/O ever failed.
+func (s *Stream) Failure() (run, bytes int) {
+	s.mu.Lock()
+	defer s.mu.Unlock()
+	return s.failRun, s.failBytes
+}
+
+// noteFailure must be called with s.mu held.
+func (s *Stream) noteFailure() {
+	if s.failRun < 0 && len(s.runs) > 0 {
+		s.failRun = len(s.runs) - 1
+		s.failBytes = s.runs[len(s.runs)-1].N
+	}
 }
 
 // Runs returns a copy of the recorded runs.
@@ -300,7 +319,7 @@ func (c *Client) DialStream(ctx context.Context) (net.Conn, error) {
 	cl, sv := net.Pipe()
 	id := m.nextID.Add(1)
 	m.total.Add(1)
-	st := &Stream{ID: id}
+	st := &Stream{ID: id, failRun: -1}
 	c.mu.Lock()
 	st.cut = c.cut
 	c.cut = nil
@@ -379,29 +398,33 @@ func (t *tapConn) begin(d Dir) int {
 	if idx > s.cut.Run {
 		// the run the cut was aimed at never reached the byte: fire now
 		s.cutHit = true
+		s.noteFailure()
 		t.peer.Close()
 		return 0
 	}
 	left := s.cut.Bytes - s.runs[idx].N
 	if left <= 0 {
 		s.cutHit = true
+		s.noteFailure()
 		t.peer.Close()
 		return 0
 	}
 	return left
 }
 
-func (t *tapConn) moved(p []byte) {
-	if len(p) == 0 {
-		return
-	}
+func (t *tapConn) moved(p []byte, err error) {
 	s := t.st
 	s.mu.Lock()
-	r := &s.runs[len(s.runs)-1]
-	if keep := maxRunKeep - len(r.Data); keep > 0 {
-		r.Data = append(r.Data, p[:min(keep, len(p))]...)
+	if len(p) > 0 {
+		r := &s.runs[len(s.runs)-1]
+		if keep := maxRunKeep - len(r.Data); keep > 0 {
+			r.Data = append(r.Data, p[:min(keep, len(p))]...)
+		}
+		r.N += len(p)
 	}
-	r.N += len(p)
+	if err != nil {
+		s.noteFailure()
+	}
 	s.mu.Unlock()
 }
 
@@ -415,7 +438,7 @@ func (t *tapConn) Read(p []byte) (int, error) {
 		p = p[:left]
 	}
 	n, err := t.Conn.Read(p)
-	t.moved(p[:n])
+	t.moved(p[:n], err)
 	return n, err
 }
 
@@ -429,7 +452,7 @@ func (t *tapConn) Write(p []byte) (int, error) {
 			chunk = p[:left]
 		}
 		n, err := t.Conn.Write(chunk)
-		t.moved(chunk[:n])
+		t.moved(chunk[:n], err)
 		total += n
 		if err != nil {
 			return total, err
